@@ -34,7 +34,8 @@ type portsModel struct {
 	allowed  map[int]bool
 	squat    map[string]bool // "tcp/port"
 	live     map[string]*pmProxy
-	reserved map[string]int // proto/name -> last port
+	reserved map[string]int  // proto/name -> last port
+	ambig    map[string]bool // proto/name -> last registration joined an existing group (no port of its own)
 	groups   map[string]*pmGroup
 	quota    int
 }
@@ -107,7 +108,7 @@ func worldPorts(w *World) {
 	}
 	env := w.newLcEnv(scfg, token, PeerOpts{Server: "10.0.0.1:7000", Mux: tcpMux, Token: token})
 	env.start()
-	m := &portsModel{allowed: allowed, squat: map[string]bool{}, live: map[string]*pmProxy{}, reserved: map[string]int{}, groups: map[string]*pmGroup{}, quota: quota}
+	m := &portsModel{allowed: allowed, squat: map[string]bool{}, live: map[string]*pmProxy{}, reserved: map[string]int{}, ambig: map[string]bool{}, groups: map[string]*pmGroup{}, quota: quota}
 
 	nclients := w.KnobPick("nclients", 1, 2, 2, 3)
 	var clients []*lcClient
@@ -243,7 +244,7 @@ func worldPorts(w *World) {
 		if squatted == 0 {
 			e.mustSucceed = true
 		}
-		if prev, ok := m.reserved[proto+"/"+name]; ok && m.allowed[prev] && !m.owned(proto, prev) && !m.squat[fmt.Sprintf("%s/%d", proto, prev)] {
+		if prev, ok := m.reserved[proto+"/"+name]; ok && !m.ambig[proto+"/"+name] && m.allowed[prev] && !m.owned(proto, prev) && !m.squat[fmt.Sprintf("%s/%d", proto, prev)] {
 			e.port = prev
 			e.mustSucceed = true
 		}
@@ -277,7 +278,15 @@ func worldPorts(w *World) {
 		}
 		px := &pmProxy{name: name, owner: c, proto: proto, port: rp, group: group, reqPort: port}
 		m.live[name] = px
-		m.reserved[proto+"/"+name] = rp
+		if g := m.groups[group]; group != "" && proto == "tcp" && g != nil && len(g.members) > 0 {
+			// a member that joins an existing group shares the port the group's first member was given; the allocator
+			// handed nothing to this name, so "its previous port" is not defined by the statement: no specific port
+			// is demanded the next time this name asks for a server-chosen one
+			m.ambig[proto+"/"+name] = true
+		} else {
+			m.reserved[proto+"/"+name] = rp
+			delete(m.ambig, proto+"/"+name)
+		}
 		if group != "" && proto == "tcp" {
 			g := m.groups[group]
 			if g == nil || len(g.members) == 0 {
@@ -470,10 +479,12 @@ func worldPorts(w *World) {
 			if s1 {
 				m.live[fn[0]] = &pmProxy{name: fn[0], owner: c1, proto: "tcp", port: port, reqPort: port}
 				m.reserved["tcp/"+fn[0]] = port
+				delete(m.ambig, "tcp/"+fn[0])
 			}
 			if s2 {
 				m.live[fn[1]] = &pmProxy{name: fn[1], owner: c2, proto: "tcp", port: port, reqPort: port}
 				m.reserved["tcp/"+fn[1]] = port
+				delete(m.ambig, "tcp/"+fn[1])
 			}
 			checkInv("race")
 		}
